@@ -1,5 +1,4 @@
-import MetadorModel.Gen.TocFns
-import MetadorModel.Bridge.TocFnsBase
+import MetadorModel.Bridge.TocFnsPaths
 /-!
 # Bridge: translated `TOCPackages` (`Gen/TocFns.lean`) = model (`Model/Container.lean`)
 
@@ -9,23 +8,6 @@ theorem ties the text of one method to the model, and the theorems chain along t
 -/
 namespace MetadorModel.Bridge.TocFns
 open MetadorModel.Container MetadorModel.CtrPy MetadorModel.Gen.TocFns
-
-/-! ### path helpers -/
-theorem gen_pkginfo_path_for (n : String) (v : Ver) : TOCPackages._pkginfo_path_for n v = pkgPath ⟨n, v⟩ := by
-  simp [TOCPackages._pkginfo_path_for, joinEp, pkgPath, packagesP]
-theorem gen_pkginfo_path_for' (p : PkgId) : TOCPackages._pkginfo_path_for p.name p.ver = pkgPath p :=
-  gen_pkginfo_path_for p.name p.ver
-theorem gen_schema_path_for (r : SRef) : TOCSchemas._schema_path_for r = schemaDir r := by
-  simp [TOCSchemas._schema_path_for, joinEp, schemaDir, schemasP, packagesP]
-theorem gen_jsonschema_path_for (r : SRef) : TOCSchemas._jsonschema_path_for r = schemaDir r ++ [.jsonschema] := by
-  simp [TOCSchemas._jsonschema_path_for, gen_schema_path_for, joinKey]
-theorem gen_link_path_for (r : SRef) : TOCLinks._link_path_for r = linkDir r := by
-  simp [TOCLinks._link_path_for, _ep_name_for, joinEp, linkDir, linksP, packagesP]
-theorem gen_ep_name_for (r : SRef) : _ep_name_for r = (r.name, r.ver) := rfl
-theorem gen_schema_ref_for (x : EpName) : _schema_ref_for x = ⟨x.1, x.2⟩ := rfl
-theorem gen_to_path (st : Stored) :
-    StoredMetadata.to_path st = st.path.dropLast ++ [.obj st.schema st.uuid] := by
-  simp [StoredMetadata.to_path, joinObj]
 
 /-! ### `_add_providers` -/
 
